@@ -22,6 +22,7 @@ import (
 	"go/token"
 	"os"
 	"path/filepath"
+	"reflect"
 	"sort"
 	"strings"
 )
@@ -171,21 +172,46 @@ func (in *instr) stmt(s ast.Stmt) ast.Stmt {
 			cc := c.(*ast.CaseClause)
 			cc.Body = in.list(cc.Body)
 		}
+	case *ast.LabeledStmt:
+		x.Stmt = in.stmt(x.Stmt)
+	case *ast.SendStmt:
+		in.expr(x.Chan)
+		in.expr(x.Value)
+		in.changed = true
+		return &ast.ExprStmt{X: simrtCall("Send", x.Chan, x.Value)}
 	case *ast.SelectStmt:
+		// not modelled: left as it is (its comm clauses keep their real channel
+		// operations; a tree that blocks in a select trips the watchdog)
 		for _, c := range x.Body.List {
 			cc := c.(*ast.CommClause)
 			cc.Body = in.list(cc.Body)
 		}
-	case *ast.LabeledStmt:
-		x.Stmt = in.stmt(x.Stmt)
 	case *ast.GoStmt:
 		in.expr(x.Call)
 		in.changed = true
-		return &ast.ExprStmt{X: &ast.CallExpr{
-			Fun: &ast.SelectorExpr{X: ast.NewIdent("simrt"), Sel: ast.NewIdent("Go")},
-			Args: []ast.Expr{&ast.FuncLit{
-				Type: &ast.FuncType{Params: &ast.FieldList{}},
-				Body: &ast.BlockStmt{List: []ast.Stmt{&ast.ExprStmt{X: x.Call}}},
+		// `go f(a, b)` evaluates f, a and b in the calling goroutine: keep that.
+		//   { _simf := f; _sima0, _sima1 := a, b; simrt.Go(func() { _simf(_sima0, _sima1) }) }
+		var lhs, rhs []ast.Expr
+		lhs = append(lhs, ast.NewIdent("_simf"))
+		rhs = append(rhs, x.Call.Fun)
+		call := &ast.CallExpr{Fun: ast.NewIdent("_simf"), Ellipsis: x.Call.Ellipsis}
+		for i, a := range x.Call.Args {
+			id := ast.NewIdent(fmt.Sprintf("_sima%d", i))
+			lhs = append(lhs, id)
+			rhs = append(rhs, a)
+			call.Args = append(call.Args, ast.NewIdent(id.Name))
+		}
+		if x.Call.Ellipsis != token.NoPos {
+			call.Ellipsis = 1
+		}
+		return &ast.BlockStmt{List: []ast.Stmt{
+			&ast.AssignStmt{Lhs: lhs, Tok: token.DEFINE, Rhs: rhs},
+			&ast.ExprStmt{X: &ast.CallExpr{
+				Fun: &ast.SelectorExpr{X: ast.NewIdent("simrt"), Sel: ast.NewIdent("Go")},
+				Args: []ast.Expr{&ast.FuncLit{
+					Type: &ast.FuncType{Params: &ast.FieldList{}},
+					Body: &ast.BlockStmt{List: []ast.Stmt{&ast.ExprStmt{X: call}}},
+				}},
 			}},
 		}}
 	default:
@@ -197,16 +223,68 @@ func (in *instr) stmt(s ast.Stmt) ast.Stmt {
 // exprsIn visits the function literals (and type references) inside a simple
 // statement.
 func (in *instr) exprsIn(n ast.Node) {
+	// v, ok := <-ch  /  v, ok = <-ch
+	if as, ok := n.(*ast.AssignStmt); ok && len(as.Lhs) == 2 && len(as.Rhs) == 1 {
+		if u, ok := as.Rhs[0].(*ast.UnaryExpr); ok && u.Op == token.ARROW {
+			as.Rhs[0] = simrtCall("Recv2", u.X)
+			in.changed = true
+		}
+	}
 	ast.Inspect(n, func(m ast.Node) bool {
+		if m == nil {
+			return true
+		}
+		in.replaceRecvs(m)
 		switch y := m.(type) {
 		case *ast.FuncLit:
 			in.funcLit(y)
 			return false
 		case *ast.SelectorExpr:
 			in.selector(y)
+		case *ast.CallExpr:
+			if id, ok := y.Fun.(*ast.Ident); ok && id.Name == "close" && id.Obj == nil && len(y.Args) == 1 {
+				y.Fun = &ast.SelectorExpr{X: ast.NewIdent("simrt"), Sel: ast.NewIdent("Close")}
+				in.changed = true
+			}
 		}
 		return true
 	})
+}
+
+func simrtCall(name string, args ...ast.Expr) *ast.CallExpr {
+	return &ast.CallExpr{Fun: &ast.SelectorExpr{X: ast.NewIdent("simrt"), Sel: ast.NewIdent(name)}, Args: args}
+}
+
+var exprType = reflect.TypeOf((*ast.Expr)(nil)).Elem()
+
+// replaceRecvs replaces every direct child expression of m that is a receive
+// (`<-ch`) by simrt.Recv(ch), whatever field of m holds it.
+func (in *instr) replaceRecvs(m ast.Node) {
+	v := reflect.ValueOf(m)
+	if v.Kind() != reflect.Ptr || v.IsNil() || v.Elem().Kind() != reflect.Struct {
+		return
+	}
+	v = v.Elem()
+	fix := func(f reflect.Value) {
+		if f.IsNil() {
+			return
+		}
+		if u, ok := f.Interface().(*ast.UnaryExpr); ok && u.Op == token.ARROW {
+			f.Set(reflect.ValueOf(ast.Expr(simrtCall("Recv", u.X))))
+			in.changed = true
+		}
+	}
+	for i := 0; i < v.NumField(); i++ {
+		f := v.Field(i)
+		switch {
+		case f.Type() == exprType:
+			fix(f)
+		case f.Kind() == reflect.Slice && f.Type().Elem() == exprType:
+			for j := 0; j < f.Len(); j++ {
+				fix(f.Index(j))
+			}
+		}
+	}
 }
 
 func (in *instr) expr(e ast.Expr) {
